@@ -195,6 +195,8 @@ class RoundTrip(Case):
             for i in range(len(xs)):
                 v = O['bc'][i]
                 res.append(('backward_censored>=censor[%d]' % i, (not is_nan(v)) and (v >= c if not isinstance(v, float) else v >= c - 1e-9 * max(1, abs(c)))))
+            # a value at or above the censoring threshold comes back as itself (here the threshold is the first value, so this holds for it)
+            res.append(('backward_censored(forward(x),censor=x)=x', (not is_nan(O['bc'][0])) and close(O['bc'][0], c, self.tol)))
         return res
 
 
